@@ -141,7 +141,7 @@ Proof.
   destruct (find root tk 0 0) as [[n m]|] eqn:F; cbn [option_map fst is_best] in FB.
   - destruct FB as (p & [Rn En] & M & BEST).
     assert (HS : node_hs n <> None) by (destruct En as [X|X]; [exact X|apply (WH p n Rn X)]).
-    unfold hit. destruct (read_params tk m (node_params n)) as [ps|]; [|exact I].
+    unfold hit. destruct (read_params tk m (node_plist n)) as [ps|]; [|exact I].
     destruct (node_hs n) as [[hid g]|] eqn:E; [|congruence].
     destruct (group_to_string name (skipn m tk) g); [|exact I].
     exists p, g. split; [apply has_pattern_reach; eauto|]. split; [exact M|].
